@@ -50,6 +50,9 @@ structure Dag where
   starters : List Nat
   onExec   : Nat → Bool
   fails    : Nat → Bool
+  /-- the value every child's output holds when the run starts: `NOT_DATA` for a fresh graph, the
+  outputs left by the previous run for a re-run (see `restart`) -/
+  out0     : Nat → Val := fun _ => .nd
 
 def Dag.deps (d : Dag) (i : Nat) : List Nat := (d.slots i).flatten
 
@@ -77,7 +80,7 @@ structure S where
 
 def init (d : Dag) : S :=
   { phase := .run d.starters, queue := [], received := fun _ => [], st := fun _ => .idle,
-    calls := fun _ => 0, out := fun _ => .nd, args := fun _ => [], running := [], errs := [],
+    calls := fun _ => 0, out := d.out0, args := fun _ => [], running := [], errs := [],
     execLog := [], doneLog := [] }
 
 /-- `InputData.fetch`: first connection holding data, else the channel's own value -/
@@ -152,6 +155,19 @@ def step (cfg : Cfg) (d : Dag) (s : S) : Act → Option S
     match s.phase, s.queue, s.running with
     | .run [], [], [] => some { s with phase := .exited }
     | _, _, _ => none
+
+/-- RE-RUN. The composite is run again after a run that ended (normally, with collected child errors,
+or aborted): the user has cleared the `failed` flags, possibly removed the cause (`fails'`) and changed
+executor assignments (`onExec'`); the wiring is the same (a workflow re-derives the same wiring from
+the same data graph, a macro keeps its own). Outputs are what the previous run left. What the all-of
+triggers had collected when the previous run stopped is either kept (`resetReceived = false`, pinned
+`Composite._on_run`) or dropped at the fresh start (`true`, repaired). -/
+def rerunDag (d : Dag) (s : S) (fails' onExec' : Nat → Bool) : Dag :=
+  { d with fails := fails', onExec := onExec', out0 := s.out }
+
+def restart (resetReceived : Bool) (d : Dag) (s : S) (fails' onExec' : Nat → Bool) : S :=
+  { init (rerunDag d s fails' onExec') with
+    received := if resetReceived then fun _ => [] else s.received }
 
 /-- run a whole schedule; `none` if some action was not enabled -/
 def runActs (cfg : Cfg) (d : Dag) (s : S) : List Act → Option S
